@@ -458,6 +458,11 @@ impl<'a> ReadAdapter<'a> {
             //
             // NOTE: We have to re-borrow the reader buffer here, since we can't get a mutable
             // reference to `self.buf` while holding an immutable reference to the reader buffer.
+            // If `read_exact` dropped the drained contents of `self.buf`, `self.pos` still points
+            // past them; restart at the beginning of the (now empty) buffer before refilling it.
+            if self.pos > self.buf.len() {
+                self.pos = 0;
+            }
             let reader = self.reader.get_mut();
             let buf = reader.buffer();
             let consumed = buf.len();
